@@ -10,9 +10,15 @@ Definition obs_eqb (a b : obs) : bool :=
   list_eqb bytes_eqb (o_lines a) (o_lines b) && bytes_eqb (o_pending a) (o_pending b).
 
 Inductive c15case :=
-| CLR (id : N) (sz : nat) (script : list bytes) (os : list obs) (fin : list bytes).
+| CLR (id : N) (sz : nat) (script : list bytes) (os : list obs) (fin : list bytes)
+(* the reader returns an error together with the last byte of a chunk
+   (0 = nil, 1 = io.EOF, 2 = another error); per call the observation and the
+   error ReadAndSend handed back *)
+| CLRE (id : N) (sz : nat) (script : list (bytes * N)) (os : list (obs * N)) (fin : list bytes).
 
-Definition c15case_id (c : c15case) : N := match c with CLR i _ _ _ _ => i end.
+Definition c15case_id (c : c15case) : N := match c with CLR i _ _ _ _ => i | CLRE i _ _ _ _ => i end.
+
+Definition obsE_eqb (a b : obs * N) : bool := obs_eqb (fst a) (fst b) && N.eqb (snd a) (snd b).
 
 Definition O (sp n : nat) (ls : list bytes) (p : bytes) : obs := mk_obs sp n ls p.
 
@@ -21,6 +27,9 @@ Definition c15case_ok (c : c15case) : bool :=
   | CLR _ sz script os fin =>
       let (os', r) := run_all sz script in
       list_eqb obs_eqb os' os && list_eqb bytes_eqb (finish r) fin && negb (bad r)
+  | CLRE _ sz script os fin =>
+      let (os', r) := run_allE sz script in
+      list_eqb obsE_eqb os' os && list_eqb bytes_eqb (finish r) fin && negb (bad r)
   end.
 
 Definition mismatches (l : list c15case) : list N := failing c15case_ok c15case_id l.
